@@ -22,3 +22,13 @@ mod par_seq;
 mod send_dispatcher;
 mod stage;
 mod util;
+
+#[cfg(feature = "verif-hooks")]
+#[allow(missing_docs)]
+pub(crate) mod verif_reexports {
+    pub use super::batch::VerifBatchSystem;
+    pub use super::dispatcher::{new_dispatcher, SystemExecSend, SystemId, ThreadLocal};
+    #[cfg(feature = "parallel")]
+    pub use super::dispatcher::ThreadPoolWrapper;
+    pub use super::stage::{Stage, StagesBuilder, VerifConflict, VerifTarget};
+}
